@@ -229,6 +229,57 @@ def detector_spec(det, params):
     return dict(cls=det, **params)
 
 
+# ------------------------------------------------------------------ objects with a past (C02, C03, C07-C09)
+
+HISTORIES = [None, "used_buffer_array", "used_buffer_frame", "scorer_prefit_wide", None]
+
+
+def other_contents(X):
+    """Other data of the same shape and dtype (what a preallocated buffer held before)."""
+    import numpy as np
+
+    return X[::-1].copy() if X.dtype.kind in "iu" else X[::-1] * 0.75 + 0.5
+
+
+def used_buffer(det, X, frame):
+    """A caller-owned buffer (array or DataFrame) on which the fitted `det` has already predicted while it held other
+    data, and which was then refilled in place with X. Outputs for it must describe X."""
+    import pandas as pd
+
+    other = other_contents(X)
+    buf = pd.DataFrame(other) if frame else other
+    try:
+        det.predict(buf)
+    except RuntimeError as e:  # the earlier contents may be degenerate for a covariance cost: that call failed, life goes on
+        if "positive definite" not in str(e):
+            raise
+    if frame:
+        buf.iloc[:, :] = X
+    else:
+        buf[:] = X
+    return buf
+
+
+def prefit_scorer_wide(det, X):
+    """The scorer object(s) the detector holds were used before on data with two more columns (a covariance
+    cost then remembers a larger minimum size). Returns True if some scorer was pre-fitted."""
+    import numpy as np
+
+    n = len(X)
+    extra = np.column_stack([(((i + 1) * 0.6180339887498949) % 1.0) - 0.5 for i in range(n)] +
+                            [(((i + 1) * 0.7548776662466927) % 1.0) - 0.5 for i in range(n)]).reshape(2, n).T
+    wide = np.hstack([np.asarray(X, dtype=float), extra])
+    done = False
+    for key, obj in det.get_params(deep=False).items():
+        if hasattr(obj, "evaluate") and hasattr(obj, "fit"):
+            try:
+                obj.fit(wide)
+                done = True
+            except Exception:  # noqa: BLE001 - a scorer that cannot take wider data simply has no such past
+                pass
+    return done
+
+
 # ------------------------------------------------------------------ sparse output access
 
 
